@@ -8,6 +8,7 @@ package raft
 // connection sequence numbers.
 
 import (
+	"os"
 	"crypto/sha256"
 	"encoding/hex"
 	"fmt"
@@ -206,7 +207,11 @@ func canonUpdate(u interface{}) string {
 // canonDisk summarises the storage of a node that is down (what a restart
 // will find).
 func (w *world) canonDisk(n *simNode) string {
-	st, err := openStorage(n.dir, w.raftOptions())
+	// a copy is opened: openStorage repairs what it finds (log ending below the snapshot) and Close flushes - looking
+	// at the state must not change what the restart will find
+	img := w.copyDir(n.dir)
+	defer os.RemoveAll(img)
+	st, err := openStorage(img, w.raftOptions())
 	if err != nil {
 		return "unopenable:" + simErrClass(err)
 	}
